@@ -1,0 +1,261 @@
+//go:build verif
+
+// Contracts checked by /verif/govc (comment-only file; see /verif/DESIGN.md, property C37).
+// relE(a, b): b was produced from a by goExpr; what that means is spelled out per node kind by the generated
+// postconditions below (every scalar field equal, every child related), i.e. relE is structural correspondence.
+package togo
+
+//@ ufunc relE(a gopast.Expr, b ast.Expr) bool
+//@ ufunc supportedE(e gopast.Expr) bool
+//@ pred relI(a *gopast.Ident, b *ast.Ident) := (a == nil <==> b == nil) && (a != nil ==> b.Name == a.Name && b.NamePos == a.NamePos)
+//@ pred relB(a *gopast.BasicLit, b *ast.BasicLit) := (a == nil <==> b == nil) && (a != nil ==> b.ValuePos == a.ValuePos && int(b.Kind) == int(a.Kind) && b.Value == a.Value)
+//@ pred relIs(a []*gopast.Ident, b []*ast.Ident) := (a == nil <==> b == nil) && len(a) == len(b) && (forall i in 0..len(a) :: relI(a[i], b[i]))
+//@ pred relEs(a []gopast.Expr, b []ast.Expr) := len(a) == len(b) && (forall i in 0..len(a) :: relE(a[i], b[i]))
+//@ pred relFL(a *gopast.FieldList, b *ast.FieldList) := (a == nil <==> b == nil) && (a != nil ==> b.Opening == a.Opening && b.Closing == a.Closing &&
+//@        len(b.List) == len(a.List) && (forall i in 0..len(a.List) :: relField(a.List[i], b.List[i])))
+//@ pred supportedEs(a []gopast.Expr) := forall i in 0..len(a) :: supportedE(a[i])
+//@ pred supportedF(f *gopast.Field) := f != nil && supportedE(f.Type)
+//@ pred supportedFL(a *gopast.FieldList) := a == nil || (forall i in 0..len(a.List) :: supportedF(a.List[i]))
+//@ pred supportedFT(a *gopast.FuncType) := a != nil && supportedFL(a.TypeParams) && supportedFL(a.Params) && supportedFL(a.Results)
+//@ pred wfField(v *gopast.Field) := supportedF(v)
+//@ pred wfFuncType(v *gopast.FuncType) := supportedFT(v)
+//@ pred wfFuncDecl(v *gopast.FuncDecl) := v != nil && supportedFL(v.Recv) && supportedFT(v.Type)
+//@ pred wfImportSpec(spec *gopast.ImportSpec) := spec != nil
+//@ pred wfTypeSpec(spec *gopast.TypeSpec) := spec != nil && supportedFL(spec.TypeParams) && supportedE(spec.Type)
+//@ pred wfValueSpec(spec *gopast.ValueSpec) := spec != nil && supportedE(spec.Type) && supportedEs(spec.Values)
+//@
+//@ func goIdent
+//@   assigns nothing
+//@   ensures relI(v, result)
+//@ func goBasicLit
+//@   assigns nothing
+//@   ensures relB(v, result)
+//@ func goIdents
+//@   assigns nothing
+//@   ensures [name-list] relIs(names, result)
+//@ loop goIdents#1
+//@   invariant len(ret) == len(names) && fresh(ret) && (forall j in 0..rangeindex+1 :: relI(names[j], ret[j]))
+//@ func goExprs
+//@   requires supportedEs(vals)
+//@   assigns nothing
+//@   ensures relEs(vals, result)
+//@ loop goExprs#1
+//@   invariant len(ret) == len(vals) && n == len(vals) && fresh(ret) && (forall j in 0..rangeindex+1 :: relE(vals[j], ret[j]))
+//@ func goType
+//@   requires supportedE(v)
+//@   assigns nothing
+//@   ensures [call.rel] relE(v, result)
+//@   ensures v == nil ==> result == nil
+//@ func goFieldList
+//@   requires supportedFL(v)
+//@   assigns nothing
+//@   ensures relFL(v, result)
+//@ loop goFieldList#1
+//@   invariant v != nil && len(list) == len(v.List) && fresh(list) && (forall j in 0..rangeindex+1 :: relField(v.List[j], list[j]))
+//@
+//@ # declarations
+//@ pred relSpec(a gopast.Spec, b ast.Spec) := (istype(a, *gopast.ImportSpec) ==> istype(b, *ast.ImportSpec) && relImportSpec(a.(*gopast.ImportSpec), b.(*ast.ImportSpec))) &&
+//@        (istype(a, *gopast.TypeSpec) ==> istype(b, *ast.TypeSpec) && relTypeSpec(a.(*gopast.TypeSpec), b.(*ast.TypeSpec))) &&
+//@        (istype(a, *gopast.ValueSpec) ==> istype(b, *ast.ValueSpec) && relValueSpec(a.(*gopast.ValueSpec), b.(*ast.ValueSpec)))
+//@ pred wfSpec(t goptoken.Token, a gopast.Spec) := (t == goptoken.IMPORT ==> istype(a, *gopast.ImportSpec) && wfImportSpec(a.(*gopast.ImportSpec))) &&
+//@        (t == goptoken.TYPE ==> istype(a, *gopast.TypeSpec) && wfTypeSpec(a.(*gopast.TypeSpec))) &&
+//@        (t == goptoken.VAR || t == goptoken.CONST ==> istype(a, *gopast.ValueSpec) && wfValueSpec(a.(*gopast.ValueSpec)))
+//@ pred wfGenDecl(v *gopast.GenDecl) := v != nil && (v.Tok == goptoken.IMPORT || v.Tok == goptoken.TYPE || v.Tok == goptoken.VAR || v.Tok == goptoken.CONST) &&
+//@        (forall i in 0..len(v.Specs) :: wfSpec(v.Tok, v.Specs[i]))
+//@ pred relGenDecl(a *gopast.GenDecl, b *ast.GenDecl) := b != nil && b.TokPos == a.TokPos && int(b.Tok) == int(a.Tok) && b.Lparen == a.Lparen && b.Rparen == a.Rparen &&
+//@        len(b.Specs) == len(a.Specs) && (forall i in 0..len(a.Specs) :: relSpec(a.Specs[i], b.Specs[i]))
+//@ func goGenDecl
+//@   requires wfGenDecl(v)
+//@   assigns nothing
+//@   ensures [GenDecl] relGenDecl(v, result)
+//@ loop goGenDecl#1
+//@   invariant wfGenDecl(v) && len(specs) == len(v.Specs) && fresh(specs) && (forall j in 0..rangeindex+1 :: relSpec(v.Specs[j], specs[j]))
+//@ pred wfDecl(d gopast.Decl) := (istype(d, *gopast.GenDecl) || istype(d, *gopast.FuncDecl)) &&
+//@        (istype(d, *gopast.GenDecl) ==> wfGenDecl(d.(*gopast.GenDecl))) && (istype(d, *gopast.FuncDecl) ==> wfFuncDecl(d.(*gopast.FuncDecl)))
+//@ pred relDecl(a gopast.Decl, b ast.Decl) := (istype(a, *gopast.GenDecl) ==> istype(b, *ast.GenDecl) && relGenDecl(a.(*gopast.GenDecl), b.(*ast.GenDecl))) &&
+//@        (istype(a, *gopast.FuncDecl) ==> istype(b, *ast.FuncDecl) && relFuncDecl(a.(*gopast.FuncDecl), b.(*ast.FuncDecl)))
+//@ func goDecl
+//@   requires wfDecl(decl)
+//@   assigns nothing
+//@   ensures [Decl] relDecl(decl, result)
+//@ func goDecls
+//@   requires forall i in 0..len(decls) :: wfDecl(decls[i])
+//@   assigns nothing
+//@   ensures [Decls] len(result) == len(decls) && (forall i in 0..len(decls) :: relDecl(decls[i], result[i]))
+//@ loop goDecls#1
+//@   invariant len(ret) == len(decls) && fresh(ret) && (forall j in 0..rangeindex+1 :: relDecl(decls[j], ret[j]))
+//@ func ASTFile
+//@   requires f != nil && mode == 0 && (forall i in 0..len(f.Decls) :: wfDecl(f.Decls[i]))
+//@   assigns nothing
+//@   ensures [File] result != nil && result.Package == f.Package && relI(f.Name, result.Name) &&
+//@            len(result.Decls) == len(f.Decls) && (forall i in 0..len(f.Decls) :: relDecl(f.Decls[i], result.Decls[i]))
+//@
+//@ # generated by /verif/govc/cmd/gen37 togo from the field lists of go/ast and xgo/ast — do not edit
+//@ func goExpr
+//@   requires supportedE(val)
+//@   assigns nothing
+//@   ensures [nil] val == nil ==> result == nil
+//@   ensures [call.rel] relE(val, result)
+//@   ensures [k.ArrayType] istype(val, *gopast.ArrayType) && val.(*gopast.ArrayType) != nil ==> istype(result, *ast.ArrayType) && result.(*ast.ArrayType) != nil &&
+//@            result.(*ast.ArrayType).Lbrack == val.(*gopast.ArrayType).Lbrack &&
+//@            relE(val.(*gopast.ArrayType).Len, result.(*ast.ArrayType).Len) &&
+//@            relE(val.(*gopast.ArrayType).Elt, result.(*ast.ArrayType).Elt)
+//@   ensures [k.BinaryExpr] istype(val, *gopast.BinaryExpr) && val.(*gopast.BinaryExpr) != nil ==> istype(result, *ast.BinaryExpr) && result.(*ast.BinaryExpr) != nil &&
+//@            relE(val.(*gopast.BinaryExpr).X, result.(*ast.BinaryExpr).X) &&
+//@            result.(*ast.BinaryExpr).OpPos == val.(*gopast.BinaryExpr).OpPos &&
+//@            int(result.(*ast.BinaryExpr).Op) == int(val.(*gopast.BinaryExpr).Op) &&
+//@            relE(val.(*gopast.BinaryExpr).Y, result.(*ast.BinaryExpr).Y)
+//@   ensures [k.CallExpr] istype(val, *gopast.CallExpr) && val.(*gopast.CallExpr) != nil ==> istype(result, *ast.CallExpr) && result.(*ast.CallExpr) != nil &&
+//@            relE(val.(*gopast.CallExpr).Fun, result.(*ast.CallExpr).Fun) &&
+//@            result.(*ast.CallExpr).Lparen == val.(*gopast.CallExpr).Lparen &&
+//@            relEs(val.(*gopast.CallExpr).Args, result.(*ast.CallExpr).Args) &&
+//@            result.(*ast.CallExpr).Ellipsis == val.(*gopast.CallExpr).Ellipsis &&
+//@            result.(*ast.CallExpr).Rparen == val.(*gopast.CallExpr).Rparen
+//@   # CallExpr: not carried over by design: NoParenEnd
+//@   ensures [k.ChanType] istype(val, *gopast.ChanType) && val.(*gopast.ChanType) != nil ==> istype(result, *ast.ChanType) && result.(*ast.ChanType) != nil &&
+//@            result.(*ast.ChanType).Begin == val.(*gopast.ChanType).Begin &&
+//@            result.(*ast.ChanType).Arrow == val.(*gopast.ChanType).Arrow &&
+//@            int(result.(*ast.ChanType).Dir) == int(val.(*gopast.ChanType).Dir) &&
+//@            relE(val.(*gopast.ChanType).Value, result.(*ast.ChanType).Value)
+//@   ensures [k.CompositeLit] istype(val, *gopast.CompositeLit) && val.(*gopast.CompositeLit) != nil ==> istype(result, *ast.CompositeLit) && result.(*ast.CompositeLit) != nil &&
+//@            relE(val.(*gopast.CompositeLit).Type, result.(*ast.CompositeLit).Type) &&
+//@            result.(*ast.CompositeLit).Lbrace == val.(*gopast.CompositeLit).Lbrace &&
+//@            relEs(val.(*gopast.CompositeLit).Elts, result.(*ast.CompositeLit).Elts) &&
+//@            result.(*ast.CompositeLit).Rbrace == val.(*gopast.CompositeLit).Rbrace
+//@   # CompositeLit: not carried over by design: Incomplete
+//@   ensures [k.Ellipsis] istype(val, *gopast.Ellipsis) && val.(*gopast.Ellipsis) != nil ==> istype(result, *ast.Ellipsis) && result.(*ast.Ellipsis) != nil &&
+//@            result.(*ast.Ellipsis).Ellipsis == val.(*gopast.Ellipsis).Ellipsis &&
+//@            relE(val.(*gopast.Ellipsis).Elt, result.(*ast.Ellipsis).Elt)
+//@   ensures [k.FuncLit] istype(val, *gopast.FuncLit) && val.(*gopast.FuncLit) != nil ==> istype(result, *ast.FuncLit) && result.(*ast.FuncLit) != nil &&
+//@            relFuncType(val.(*gopast.FuncLit).Type, result.(*ast.FuncLit).Type)
+//@   # FuncLit: not carried over by design: Body
+//@   ensures [k.IndexExpr] istype(val, *gopast.IndexExpr) && val.(*gopast.IndexExpr) != nil ==> istype(result, *ast.IndexExpr) && result.(*ast.IndexExpr) != nil &&
+//@            relE(val.(*gopast.IndexExpr).X, result.(*ast.IndexExpr).X) &&
+//@            result.(*ast.IndexExpr).Lbrack == val.(*gopast.IndexExpr).Lbrack &&
+//@            relE(val.(*gopast.IndexExpr).Index, result.(*ast.IndexExpr).Index) &&
+//@            result.(*ast.IndexExpr).Rbrack == val.(*gopast.IndexExpr).Rbrack
+//@   ensures [k.IndexListExpr] istype(val, *gopast.IndexListExpr) && val.(*gopast.IndexListExpr) != nil ==> istype(result, *ast.IndexListExpr) && result.(*ast.IndexListExpr) != nil &&
+//@            relE(val.(*gopast.IndexListExpr).X, result.(*ast.IndexListExpr).X) &&
+//@            result.(*ast.IndexListExpr).Lbrack == val.(*gopast.IndexListExpr).Lbrack &&
+//@            relEs(val.(*gopast.IndexListExpr).Indices, result.(*ast.IndexListExpr).Indices) &&
+//@            result.(*ast.IndexListExpr).Rbrack == val.(*gopast.IndexListExpr).Rbrack
+//@   ensures [k.InterfaceType] istype(val, *gopast.InterfaceType) && val.(*gopast.InterfaceType) != nil ==> istype(result, *ast.InterfaceType) && result.(*ast.InterfaceType) != nil &&
+//@            result.(*ast.InterfaceType).Interface == val.(*gopast.InterfaceType).Interface &&
+//@            relFL(val.(*gopast.InterfaceType).Methods, result.(*ast.InterfaceType).Methods)
+//@   # InterfaceType: not carried over by design: Incomplete
+//@   ensures [k.KeyValueExpr] istype(val, *gopast.KeyValueExpr) && val.(*gopast.KeyValueExpr) != nil ==> istype(result, *ast.KeyValueExpr) && result.(*ast.KeyValueExpr) != nil &&
+//@            relE(val.(*gopast.KeyValueExpr).Key, result.(*ast.KeyValueExpr).Key) &&
+//@            result.(*ast.KeyValueExpr).Colon == val.(*gopast.KeyValueExpr).Colon &&
+//@            relE(val.(*gopast.KeyValueExpr).Value, result.(*ast.KeyValueExpr).Value)
+//@   ensures [k.MapType] istype(val, *gopast.MapType) && val.(*gopast.MapType) != nil ==> istype(result, *ast.MapType) && result.(*ast.MapType) != nil &&
+//@            result.(*ast.MapType).Map == val.(*gopast.MapType).Map &&
+//@            relE(val.(*gopast.MapType).Key, result.(*ast.MapType).Key) &&
+//@            relE(val.(*gopast.MapType).Value, result.(*ast.MapType).Value)
+//@   ensures [k.ParenExpr] istype(val, *gopast.ParenExpr) && val.(*gopast.ParenExpr) != nil ==> istype(result, *ast.ParenExpr) && result.(*ast.ParenExpr) != nil &&
+//@            result.(*ast.ParenExpr).Lparen == val.(*gopast.ParenExpr).Lparen &&
+//@            relE(val.(*gopast.ParenExpr).X, result.(*ast.ParenExpr).X) &&
+//@            result.(*ast.ParenExpr).Rparen == val.(*gopast.ParenExpr).Rparen
+//@   ensures [k.SelectorExpr] istype(val, *gopast.SelectorExpr) && val.(*gopast.SelectorExpr) != nil ==> istype(result, *ast.SelectorExpr) && result.(*ast.SelectorExpr) != nil &&
+//@            relE(val.(*gopast.SelectorExpr).X, result.(*ast.SelectorExpr).X) &&
+//@            relI(val.(*gopast.SelectorExpr).Sel, result.(*ast.SelectorExpr).Sel)
+//@   ensures [k.SliceExpr] istype(val, *gopast.SliceExpr) && val.(*gopast.SliceExpr) != nil ==> istype(result, *ast.SliceExpr) && result.(*ast.SliceExpr) != nil &&
+//@            relE(val.(*gopast.SliceExpr).X, result.(*ast.SliceExpr).X) &&
+//@            result.(*ast.SliceExpr).Lbrack == val.(*gopast.SliceExpr).Lbrack &&
+//@            relE(val.(*gopast.SliceExpr).Low, result.(*ast.SliceExpr).Low) &&
+//@            relE(val.(*gopast.SliceExpr).High, result.(*ast.SliceExpr).High) &&
+//@            relE(val.(*gopast.SliceExpr).Max, result.(*ast.SliceExpr).Max) &&
+//@            result.(*ast.SliceExpr).Slice3 == val.(*gopast.SliceExpr).Slice3 &&
+//@            result.(*ast.SliceExpr).Rbrack == val.(*gopast.SliceExpr).Rbrack
+//@   ensures [k.StarExpr] istype(val, *gopast.StarExpr) && val.(*gopast.StarExpr) != nil ==> istype(result, *ast.StarExpr) && result.(*ast.StarExpr) != nil &&
+//@            result.(*ast.StarExpr).Star == val.(*gopast.StarExpr).Star &&
+//@            relE(val.(*gopast.StarExpr).X, result.(*ast.StarExpr).X)
+//@   ensures [k.StructType] istype(val, *gopast.StructType) && val.(*gopast.StructType) != nil ==> istype(result, *ast.StructType) && result.(*ast.StructType) != nil &&
+//@            result.(*ast.StructType).Struct == val.(*gopast.StructType).Struct &&
+//@            relFL(val.(*gopast.StructType).Fields, result.(*ast.StructType).Fields)
+//@   # StructType: not carried over by design: Incomplete
+//@   ensures [k.TypeAssertExpr] istype(val, *gopast.TypeAssertExpr) && val.(*gopast.TypeAssertExpr) != nil ==> istype(result, *ast.TypeAssertExpr) && result.(*ast.TypeAssertExpr) != nil &&
+//@            relE(val.(*gopast.TypeAssertExpr).X, result.(*ast.TypeAssertExpr).X) &&
+//@            result.(*ast.TypeAssertExpr).Lparen == val.(*gopast.TypeAssertExpr).Lparen &&
+//@            relE(val.(*gopast.TypeAssertExpr).Type, result.(*ast.TypeAssertExpr).Type) &&
+//@            result.(*ast.TypeAssertExpr).Rparen == val.(*gopast.TypeAssertExpr).Rparen
+//@   ensures [k.UnaryExpr] istype(val, *gopast.UnaryExpr) && val.(*gopast.UnaryExpr) != nil ==> istype(result, *ast.UnaryExpr) && result.(*ast.UnaryExpr) != nil &&
+//@            result.(*ast.UnaryExpr).OpPos == val.(*gopast.UnaryExpr).OpPos &&
+//@            int(result.(*ast.UnaryExpr).Op) == int(val.(*gopast.UnaryExpr).Op) &&
+//@            relE(val.(*gopast.UnaryExpr).X, result.(*ast.UnaryExpr).X)
+//@   use supUnfold(val)
+//@ axiom manual supUnfold := forall e gopast.Expr :: supportedE(e) ==> (e == nil || istype(e, *gopast.ArrayType) || istype(e, *gopast.BasicLit) || istype(e, *gopast.BinaryExpr) || istype(e, *gopast.CallExpr) || istype(e, *gopast.ChanType) || istype(e, *gopast.CompositeLit) || istype(e, *gopast.Ellipsis) || istype(e, *gopast.FuncLit) || istype(e, *gopast.FuncType) || istype(e, *gopast.Ident) || istype(e, *gopast.IndexExpr) || istype(e, *gopast.IndexListExpr) || istype(e, *gopast.InterfaceType) || istype(e, *gopast.KeyValueExpr) || istype(e, *gopast.MapType) || istype(e, *gopast.ParenExpr) || istype(e, *gopast.SelectorExpr) || istype(e, *gopast.SliceExpr) || istype(e, *gopast.StarExpr) || istype(e, *gopast.StructType) || istype(e, *gopast.TypeAssertExpr) || istype(e, *gopast.UnaryExpr)) &&
+//@        (istype(e, *gopast.ArrayType) ==> e.(*gopast.ArrayType) != nil && supportedE(e.(*gopast.ArrayType).Len) && supportedE(e.(*gopast.ArrayType).Elt)) &&
+//@        (istype(e, *gopast.BinaryExpr) ==> e.(*gopast.BinaryExpr) != nil && supportedE(e.(*gopast.BinaryExpr).X) && supportedE(e.(*gopast.BinaryExpr).Y)) &&
+//@        (istype(e, *gopast.CallExpr) ==> e.(*gopast.CallExpr) != nil && supportedE(e.(*gopast.CallExpr).Fun) && supportedEs(e.(*gopast.CallExpr).Args)) &&
+//@        (istype(e, *gopast.ChanType) ==> e.(*gopast.ChanType) != nil && supportedE(e.(*gopast.ChanType).Value)) &&
+//@        (istype(e, *gopast.CompositeLit) ==> e.(*gopast.CompositeLit) != nil && supportedE(e.(*gopast.CompositeLit).Type) && supportedEs(e.(*gopast.CompositeLit).Elts)) &&
+//@        (istype(e, *gopast.Ellipsis) ==> e.(*gopast.Ellipsis) != nil && supportedE(e.(*gopast.Ellipsis).Elt)) &&
+//@        (istype(e, *gopast.FuncLit) ==> e.(*gopast.FuncLit) != nil && supportedFT(e.(*gopast.FuncLit).Type)) &&
+//@        (istype(e, *gopast.FuncType) ==> e.(*gopast.FuncType) != nil && supportedFL(e.(*gopast.FuncType).TypeParams) && supportedFL(e.(*gopast.FuncType).Params) && supportedFL(e.(*gopast.FuncType).Results)) &&
+//@        (istype(e, *gopast.IndexExpr) ==> e.(*gopast.IndexExpr) != nil && supportedE(e.(*gopast.IndexExpr).X) && supportedE(e.(*gopast.IndexExpr).Index)) &&
+//@        (istype(e, *gopast.IndexListExpr) ==> e.(*gopast.IndexListExpr) != nil && supportedE(e.(*gopast.IndexListExpr).X) && supportedEs(e.(*gopast.IndexListExpr).Indices)) &&
+//@        (istype(e, *gopast.InterfaceType) ==> e.(*gopast.InterfaceType) != nil && supportedFL(e.(*gopast.InterfaceType).Methods)) &&
+//@        (istype(e, *gopast.KeyValueExpr) ==> e.(*gopast.KeyValueExpr) != nil && supportedE(e.(*gopast.KeyValueExpr).Key) && supportedE(e.(*gopast.KeyValueExpr).Value)) &&
+//@        (istype(e, *gopast.MapType) ==> e.(*gopast.MapType) != nil && supportedE(e.(*gopast.MapType).Key) && supportedE(e.(*gopast.MapType).Value)) &&
+//@        (istype(e, *gopast.ParenExpr) ==> e.(*gopast.ParenExpr) != nil && supportedE(e.(*gopast.ParenExpr).X)) &&
+//@        (istype(e, *gopast.SelectorExpr) ==> e.(*gopast.SelectorExpr) != nil && supportedE(e.(*gopast.SelectorExpr).X)) &&
+//@        (istype(e, *gopast.SliceExpr) ==> e.(*gopast.SliceExpr) != nil && supportedE(e.(*gopast.SliceExpr).X) && supportedE(e.(*gopast.SliceExpr).Low) && supportedE(e.(*gopast.SliceExpr).High) && supportedE(e.(*gopast.SliceExpr).Max)) &&
+//@        (istype(e, *gopast.StarExpr) ==> e.(*gopast.StarExpr) != nil && supportedE(e.(*gopast.StarExpr).X)) &&
+//@        (istype(e, *gopast.StructType) ==> e.(*gopast.StructType) != nil && supportedFL(e.(*gopast.StructType).Fields)) &&
+//@        (istype(e, *gopast.TypeAssertExpr) ==> e.(*gopast.TypeAssertExpr) != nil && supportedE(e.(*gopast.TypeAssertExpr).X) && supportedE(e.(*gopast.TypeAssertExpr).Type)) &&
+//@        (istype(e, *gopast.UnaryExpr) ==> e.(*gopast.UnaryExpr) != nil && supportedE(e.(*gopast.UnaryExpr).X))
+//@ pred relFuncType(a *gopast.FuncType, b *ast.FuncType) := b != nil &&
+//@            b.Func == a.Func &&
+//@            relFL(a.TypeParams, b.TypeParams) &&
+//@            relFL(a.Params, b.Params) &&
+//@            relFL(a.Results, b.Results)
+//@ func goFuncType
+//@   requires wfFuncType(v)
+//@   assigns nothing
+//@   ensures [FuncType] relFuncType(v, result)
+//@ pred relField(a *gopast.Field, b *ast.Field) := b != nil &&
+//@            relIs(a.Names, b.Names) &&
+//@            relE(a.Type, b.Type) &&
+//@            relB(a.Tag, b.Tag)
+//@ func goField
+//@   requires wfField(v)
+//@   assigns nothing
+//@   ensures [Field] relField(v, result)
+//@   # Field: not carried over by design: Doc, Comment
+//@ pred relFuncDecl(a *gopast.FuncDecl, b *ast.FuncDecl) := b != nil &&
+//@            relFL(a.Recv, b.Recv) &&
+//@            relI(a.Name, b.Name) &&
+//@            relFuncType(a.Type, b.Type)
+//@ func goFuncDecl
+//@   requires wfFuncDecl(v)
+//@   assigns nothing
+//@   ensures [FuncDecl] relFuncDecl(v, result)
+//@   # FuncDecl: not carried over by design: Doc, Body, Operator, Shadow, IsClass, Static
+//@ pred relImportSpec(a *gopast.ImportSpec, b *ast.ImportSpec) := b != nil &&
+//@            relI(a.Name, b.Name) &&
+//@            relB(a.Path, b.Path) &&
+//@            b.EndPos == a.EndPos
+//@ func goImportSpec
+//@   requires wfImportSpec(spec)
+//@   assigns nothing
+//@   ensures [ImportSpec] relImportSpec(spec, result)
+//@   # ImportSpec: not carried over by design: Doc, Comment
+//@ pred relTypeSpec(a *gopast.TypeSpec, b *ast.TypeSpec) := b != nil &&
+//@            relI(a.Name, b.Name) &&
+//@            relFL(a.TypeParams, b.TypeParams) &&
+//@            b.Assign == a.Assign &&
+//@            relE(a.Type, b.Type)
+//@ func goTypeSpec
+//@   requires wfTypeSpec(spec)
+//@   assigns nothing
+//@   ensures [TypeSpec] relTypeSpec(spec, result)
+//@   # TypeSpec: not carried over by design: Doc, Comment
+//@ pred relValueSpec(a *gopast.ValueSpec, b *ast.ValueSpec) := b != nil &&
+//@            relIs(a.Names, b.Names) &&
+//@            relE(a.Type, b.Type) &&
+//@            relEs(a.Values, b.Values)
+//@ func goValueSpec
+//@   requires wfValueSpec(spec)
+//@   assigns nothing
+//@   ensures [ValueSpec] relValueSpec(spec, result)
+//@   # ValueSpec: not carried over by design: Doc, Tag, Comment
